@@ -41,7 +41,7 @@ TRUSTED_BASE_COMMON = [
     "no Axiom/Parameter/Admitted in /verif/coq (grep audit on every run) and Print Assumptions of every property theorem compared with a by-name allow-list",
     "hand-written Gallina model (not generated from the Rust text); tied to /repo by the correspondence run of this check",
     "OCaml extraction with `Require ExtrOcamlBasic` only, i.e. exactly the directives shipped in that file: Extract Inductive bool => bool, option => option, unit => unit, list => list, prod => ( * ), sumbool => bool, sumor => option; Extract Inlined Constant andb => (&&), orb => (||); no directive of our own (numbers positive/N/Z/nat stay inductive); OCaml 4.13.1; zarith only for decimal <-> positive conversion in the drivers",
-    "the OCaml driver (parsing of traces, comparison code) and the Rust harness (generators, snapshot dumper) are unverified",
+    "the OCaml driver (parsing of traces, lifting of snapshots into the model's types, comparison code) and the Rust harness (generators, snapshot dumper) are unverified; EXCEPT the decision 'model table and real table are the same up to the naming of the new nodes' in ocaml/lswap.ml (C08 level swaps / reorderings, all kinds), c02_main.ml (C02 edge-level replay: new nodes and result edge), c14_main.ml (C14x: predicted table incl. reference counts) and c15_main.ml (C15: decoded diagram vs. dump): it is taken by the extracted checker coq/DD/IsoCheck.v (iso_with / iso_core / iso_snap_b), proved sound and complete against the relational definition (injective renaming in the sense of DD/Rename.v that fixes the old ids and maps the roots; coq/DD/IsoCheckProofs.v, theorems C20_iso_check_sound / _complete / _sem / C20_iso_rel_rename in coq/Props/C20.v); the former hand-written comparisons only word the message of a rejection (statistic iso_disagree = 0: they never contradicted the checker); see notes/GLUE.md for what stays hand-written per driver",
     "rustc/cargo as installed; harness built from /repo's working tree on every run",
 ]
 
